@@ -42,6 +42,9 @@ fn profile_c03() -> Profile {
     p.many_assets = 200;
     p.tight = 100;
     p.max_ops_scale = 2;
+    // datums decoded from a foreign peer's bytes keep those bytes (C04); they are not values built
+    // through the typed API, so the shortest-encoding clause does not speak about them
+    p.alt_datums = 0;
     p
 }
 
